@@ -235,6 +235,19 @@ prop("C15", lambda tier: [
                   "an explicit myth_init_ex installs its attributes as the global attributes, which later implicit initialisations use (the library's documented global-attribute semantics)",
                   "well-formed but unusable requests (1..32767-byte default stacks, more than 64 workers) are excluded as the property says"] + E1_ASSUME)
 
+DAG_ENGINE = "E3 seqmc (serial multi-worker simulator driving the real DAG Recorder; bounded exhaustive programs x schedules x options vs an interval-list oracle)"
+DAG_ASSUME = ["the recorder sources (src/profiler/*.c, dag_recorder_inl.h) are compiled unchanged with -DMYTH_VERIF, whose only effect there is the virtual-clock seam dr_verif_clock in dr_get_tsc",
+              "executions are produced by a serial simulator of a work-first scheduler on W workers: steals happen when work appears or a worker becomes idle, at most 2 steals/migrations per execution",
+              "bounded: programs of <= 3 (quick) / 4 (thorough) tasks, <= 3 sections, nesting <= 2; interval lengths from patterns over {1,3,10}; option settings as listed"]
+prop("C18", lambda tier: [binc("c18", "DAG_COMPONENTS=c18 engine/build_dag.sh", "build/c18/c18 --tier quick --stats {stats}", "build/c18/c18 --tier thorough --stats {stats}", DAG_ENGINE, deadline=(600, 3000))],
+     "all well-nested programs (task ::= section* end; section ::= (section|create)* wait; 'other' intervals) of the bound x timing patterns x explicit/implicit section opening x W workers x all steal/migration schedules "
+     "(<= 2) x contraction settings (12 path-selecting settings quick, the whole 90-setting grid thorough); root summary and parsed .stat totals vs an oracle computed from the interval list, and across the option grid",
+     assumptions=DAG_ASSUME)
+prop("C19", lambda tier: [binc("c19", "DAG_COMPONENTS=c19 engine/build_dag.sh", "build/c19/c19 --tier quick --stats {stats}", "build/c19/c19 --tier thorough --stats {stats}", DAG_ENGINE, deadline=(900, 4000))],
+     "the executions of C18 x record-time settings, each dumped, read back (raw bytes, dr_read_dag, string table with 1-4 file names), validated structurally by an independent validator, replayed chronologically, "
+     "and converted with 18 conversion-time settings; converted DAGs validated and their totals compared with the input's",
+     assumptions=DAG_ASSUME)
+
 prop("C17", lambda tier: [e1("c17", "harness/c17_bulk.c"), e1("c17m", "harness/c17_mtbb.cc", harness_flags="-I" + REPO + "/src -fpermissive")],
      "C: n in 0..4/7 x {many, various} x NULL-ness of results/ids/attrs x {packed, 2x stride, struct-embedded} with guard words around every slot; "
      "C++: task_group with 0..10/12 run() calls + second batch, parallel_for(first,last[,step[,grain]]) for all first,last in -2..4/5, step 1..3, grain 1..3; "
